@@ -61,6 +61,7 @@ type rpcEnv struct {
 	lcalls  []*localCall
 	done    int32
 	nDeliv  int
+	returned []int // question ids the script has sent a Return for
 }
 
 func (e *rpcEnv) ev(s string) {
@@ -106,7 +107,7 @@ func (e *rpcEnv) newCap() *appCap {
 	e.caps = append(e.caps, a)
 	e.mu.Unlock()
 	var methods []server.Method
-	for m := 0; m <= 5; m++ {
+	for m := 0; m <= 8; m++ {
 		m := m
 		methods = append(methods, server.Method{
 			Method: capnp.Method{InterfaceID: rpcIface, MethodID: uint16(m)},
@@ -124,6 +125,9 @@ func (a *appCap) impl(ctx context.Context, call *server.Call, m int) error {
 		tag = call.Args().Uint64(0)
 	}
 	e := a.env
+	if atomic.LoadInt32(&a.shutdowns) > 0 {
+		e.ev(fmt.Sprintf("!deliver-after-shutdown k%d", a.id))
+	}
 	e.mu.Lock()
 	e.nDeliv++
 	e.events = append(e.events, fmt.Sprintf("@k%d.m%d.t%d", a.id, m, tag))
@@ -139,27 +143,42 @@ func (a *appCap) impl(ctx context.Context, call *server.Call, m int) error {
 		case "exc":
 			return errors.New("appfail")
 		}
-		res, err := call.AllocResults(capnp.ObjectSize{DataSize: 8, PointerCount: 2})
+		nptr := uint16(2)
+		if kind == "big" {
+			nptr = 301
+		}
+		res, err := call.AllocResults(capnp.ObjectSize{DataSize: 8, PointerCount: nptr})
 		if err != nil {
 			return err
 		}
 		res.SetUint64(0, tag)
-		var c *capnp.Client
+		setCap := func(i int, c *capnp.Client) {
+			in := capnp.NewInterface(res.Segment(), res.Message().AddCap(c))
+			res.SetPtr(uint16(i), in.ToPtr())
+		}
 		switch kind {
 		case "cap":
-			c = e.newCap().client // the result owns the harness's reference
+			setCap(0, e.newCap().client) // the result owns the harness's reference
 		case "same":
 			e.mu.Lock()
-			c = e.caps[0].client.AddRef()
+			c := e.caps[0].client.AddRef()
 			e.mu.Unlock()
+			setCap(0, c)
 		case "giveback":
-			if p, err := call.Args().Ptr(0); err == nil {
-				c = p.Interface().Client().AddRef()
+			if p, err := call.Args().Ptr(0); err == nil && p.Interface().Client() != nil {
+				setCap(0, p.Interface().Client().AddRef())
 			}
-		}
-		if c != nil {
-			in := capnp.NewInterface(res.Segment(), res.Message().AddCap(c))
-			res.SetPtr(0, in.ToPtr())
+		case "big":
+			// pointer 300 = a new capability (table entry 0); pointer 44 = 300 & 0xff = capability 0 (table entry 1)
+			setCap(300, e.newCap().client)
+			e.mu.Lock()
+			c := e.caps[0].client.AddRef()
+			e.mu.Unlock()
+			setCap(44, c)
+		case "twice":
+			c := e.newCap().client
+			setCap(0, c)
+			setCap(1, c.AddRef())
 		}
 		return nil
 	}
@@ -182,6 +201,23 @@ func (a *appCap) impl(ctx context.Context, call *server.Call, m int) error {
 		return finish("same")
 	case 5:
 		return finish("giveback")
+	case 6:
+		return finish("big")
+	case 7:
+		return finish("twice")
+	case 8:
+		// holds like method 1, but answers a cancellation with a brand-new capability
+		e.mu.Lock()
+		h = &heldCall{cmd: make(chan string, 1)}
+		e.held = append(e.held, h)
+		e.mu.Unlock()
+		select {
+		case k := <-h.cmd:
+			return finish(k)
+		case <-ctx.Done():
+			e.ev(fmt.Sprintf("cancelled t%d", tag))
+			return finish("cap")
+		}
 	}
 	return errors.New("unknown method")
 }
@@ -237,7 +273,8 @@ func (t *scriptTransport) NewMessage(ctx context.Context) (rpccp.Message, func()
 		if released {
 			t.env.ev("!send-after-release")
 		}
-		if msg.CapTable != nil {
+		if msg.CapTable != nil && rmsg.Which() != rpccp.Message_Which_unimplemented {
+			// (an Unimplemented echo copies the offending message, interface pointers included; harmless)
 			t.env.ev("!captable-not-nil-at-send")
 		}
 		t.mu.Lock()
@@ -497,7 +534,79 @@ func (e *rpcEnv) peerSend(msg *capnp.Message) {
 	}
 }
 
+// resolve replaces symbolic references by what the Conn has put on the wire so far:
+//   Q<k> the k-th outstanding question id of the Conn (oldest first), X<k> the k-th export id it has named
+func (e *rpcEnv) resolve(op string) string {
+	if !strings.ContainsAny(op, "QX") {
+		return op
+	}
+	e.mu.Lock()
+	defer e.mu.Unlock()
+	var outstanding, exports []int
+	seenExp := map[int]bool{}
+	for _, w := range e.wire {
+		var a, b int
+		switch {
+		case strings.HasPrefix(w, "Boot("):
+			fmt.Sscanf(w, "Boot(%d)", &a)
+			outstanding = append(outstanding, a)
+		case strings.HasPrefix(w, "Call("):
+			fmt.Sscanf(w, "Call(%d,", &a)
+			outstanding = append(outstanding, a)
+		}
+		_ = b
+		if i := strings.LastIndex(w, ","); i >= 0 && (strings.HasPrefix(w, "Ret(") || strings.HasPrefix(w, "Call(")) {
+			for _, d := range strings.Split(strings.TrimSuffix(w[i+1:], ")"), "+") {
+				if len(d) > 1 && d[0] == 's' {
+					if n, err := strconv.Atoi(d[1:]); err == nil && !seenExp[n] {
+						seenExp[n] = true
+						exports = append(exports, n)
+					}
+				}
+			}
+		}
+	}
+	for _, r := range e.returned {
+		for i, q := range outstanding {
+			if q == r {
+				outstanding = append(outstanding[:i], outstanding[i+1:]...)
+				break
+			}
+		}
+	}
+	re := func(prefix byte, vals []int) {
+		for {
+			i := strings.IndexByte(op, prefix)
+			if i < 0 {
+				return
+			}
+			j := i + 1
+			for j < len(op) && op[j] >= '0' && op[j] <= '9' {
+				j++
+			}
+			k, _ := strconv.Atoi(op[i+1 : j])
+			v := 77 // nothing to refer to: an id that does not exist
+			if len(vals) > 0 {
+				v = vals[k%len(vals)]
+			}
+			op = op[:i] + strconv.Itoa(v) + op[j:]
+		}
+	}
+	re('Q', outstanding)
+	re('X', exports)
+	return op
+}
+
 func (e *rpcEnv) peerOp(op string) string {
+	op = e.resolve(op)
+	if len(op) > 2 && op[1] == 'R' {
+		f := strings.Split(op[2:], ":")
+		if n, err := strconv.Atoi(f[0]); err == nil {
+			e.mu.Lock()
+			e.returned = append(e.returned, n)
+			e.mu.Unlock()
+		}
+	}
 	if strings.HasPrefix(op, "pHcorrupt:") {
 		return e.peerCorrupt(op)
 	}
@@ -739,7 +848,7 @@ func (e *rpcEnv) watch(lc *localCall) {
 			e.ev("!resolved-twice c" + strconv.Itoa(lc.id))
 		}
 		lc.res.Store(r)
-		e.ev("=c" + strconv.Itoa(lc.id) + ":" + r)
+		e.ev("=c" + strconv.Itoa(lc.id) + "~" + r)
 	}()
 }
 
@@ -877,6 +986,36 @@ func (e *rpcEnv) localOp(op string) string {
 	return "bad-op"
 }
 
+// tables: the Conn's own tables (verif hook): T[exports id=wireRefs|imports id=wireRefs|answer ids|L<sender lock held>]
+func (e *rpcEnv) tables() string {
+	s := rpc.VerifSnapshot(e.conn)
+	var ex, im, an []string
+	var ids []int
+	for id := range s.Exports {
+		ids = append(ids, int(id))
+	}
+	sort.Ints(ids)
+	for _, id := range ids {
+		ex = append(ex, fmt.Sprintf("e%d=%d", id, s.Exports[uint32(id)]))
+	}
+	ids = ids[:0]
+	for id := range s.Imports {
+		ids = append(ids, int(id))
+	}
+	sort.Ints(ids)
+	for _, id := range ids {
+		im = append(im, fmt.Sprintf("i%d=%d", id, s.Imports[uint32(id)]))
+	}
+	for _, id := range s.Answers {
+		an = append(an, "a"+strconv.Itoa(int(id)))
+	}
+	l := "L0"
+	if s.SenderLocked {
+		l = "L1"
+	}
+	return "T[" + strings.Join(ex, ",") + "|" + strings.Join(im, ",") + "|" + strings.Join(an, ",") + "|" + l + "]"
+}
+
 func (e *rpcEnv) flush() string {
 	e.mu.Lock()
 	evs := e.events
@@ -895,7 +1034,7 @@ func (e *rpcEnv) flush() string {
 	}
 	sort.Strings(wire)
 	sort.Strings(rest)
-	return strings.Join(append(append(wire, deliv...), rest...), " ")
+	return strings.Join(append(append(append(wire, deliv...), rest...), e.tables()), " ")
 }
 
 func (e *rpcEnv) settle() string {
@@ -940,6 +1079,9 @@ func execRPCScript(script string, bootstrap bool) string {
 			continue
 		}
 		res := "-"
+		if op[0] == 'p' {
+			op = e.resolve(op) // the trace shows the ids actually used
+		}
 		switch op[0] {
 		case 'p':
 			res = e.peerOp(op)
@@ -1076,6 +1218,11 @@ func execRPC(f []string) string {
 			return "bad-op"
 		}
 		return execRPCScript(f[2], f[1] == "1")
+	case "check":
+		if len(f) != 3 {
+			return "bad-op"
+		}
+		return execRPCCheck(f[1] == "1", f[2])
 	}
 	return "bad-op"
 }
@@ -1093,6 +1240,17 @@ func inboundScript(r *lib.Rng, n int) string {
 	ops = append(ops, "pB0")
 	live = append(live, 0)
 	nextQ = 1
+	if r.Intn(4) == 0 {
+		// directed: calls pipelined on an unreturned answer through pointer fields beyond 255, then the big result
+		ops = append(ops, "pC1:a0:1", "pC2:a1."+strconv.Itoa(r.Pick(300, 300, 44, 0))+":0", "pC3:a1."+strconv.Itoa(r.Pick(300, 44))+":"+strconv.Itoa(r.Pick(0, 1)))
+		live = append(live, 1, 2, 3)
+		nextQ = 4
+		heldCalls = 1
+		if r.Intn(2) == 0 {
+			ops = append(ops, "aR0:"+r.PickS("big", "big", "twice", "cap"))
+			exports += 2
+		}
+	}
 	pickLive := func() int {
 		if len(live) == 0 || r.Intn(8) == 0 {
 			return r.Intn(nextQ + 1)
@@ -1116,14 +1274,14 @@ func inboundScript(r *lib.Rng, n int) string {
 			if r.Intn(12) == 0 && len(live) > 0 {
 				q = live[r.Intn(len(live))]
 			}
-			m := r.Pick(0, 0, 1, 1, 2, 3, 4)
+			m := r.Pick(0, 0, 1, 1, 1, 2, 3, 4, 6, 7)
 			tgt := ""
 			if r.Intn(3) == 0 {
 				tgt = "e" + strconv.Itoa(r.Intn(exports+1))
 			} else {
 				tgt = "a" + strconv.Itoa(pickLive())
 				if r.Intn(3) > 0 {
-					tgt += "." + strconv.Itoa(r.Pick(0, 0, 0, 1))
+					tgt += "." + strconv.Itoa(r.Pick(0, 0, 0, 1, 1, 300, 300, 44))
 				}
 			}
 			op := "pC" + strconv.Itoa(q) + ":" + tgt + ":" + strconv.Itoa(m)
@@ -1135,14 +1293,14 @@ func inboundScript(r *lib.Rng, n int) string {
 			if m == 1 {
 				heldCalls++
 			}
-			if m == 2 || m == 4 {
+			if m == 2 || m == 4 || m == 6 || m == 7 {
 				exports++
 			}
 		case t < 13:
 			if heldCalls == 0 {
 				continue
 			}
-			ops = append(ops, "aR"+strconv.Itoa(r.Intn(heldCalls))+":"+r.PickS("ok", "exc", "cap", "same"))
+			ops = append(ops, "aR"+strconv.Itoa(r.Intn(heldCalls))+":"+r.PickS("ok", "exc", "cap", "same", "big", "big", "twice"))
 			exports++
 		case t < 17:
 			q := pickLive()
@@ -1172,5 +1330,445 @@ func genC06(rec *lib.Rec, r *lib.Rng, thorough bool) {
 	n /= Shards
 	for i := 0; i < n; i++ {
 		rec.Op("M", "rpc script "+strconv.Itoa(r.Pick(1, 1, 1, 0))+" "+inboundScript(r, 3+r.Intn(14)), true)
+		if i%2 == 0 {
+			rec.Op("S", "rpc check "+strconv.Itoa(r.Pick(1, 1, 0))+" "+mixedScript(r, 4+r.Intn(20), false, false), true)
+		}
 	}
+}
+
+// ---- oracles over a whole script (S stream): "rpc check <boot> <script>" ----
+
+func rpcOracles(trace string) []string {
+	var bad []string
+	note := func(s string) {
+		for _, b := range bad {
+			if b == s {
+				return
+			}
+		}
+		bad = append(bad, s)
+	}
+	outstandingAns := map[int]int{}  // answer id -> calls the script sent and the Conn has not answered
+	inUseQ := map[int]bool{}         // question ids of the Conn between its Boot/Call and its Finish
+	impRefs := map[int]int{}         // import id -> descriptors the script sent since the last Release
+	uncertain := map[int]bool{}
+	relQ := map[int]bool{} // questions whose Finish (releaseResultCaps) went out before their Return: the peer drops those caps itself
+	sentOrder := map[string]int{}    // tag -> position at which it was sent (script calls and local calls)
+	lastDeliv := map[string]int{}    // cap -> position of the last tag delivered to it
+	pos := 0
+	aborted := false
+	closedByScript := false
+	// export references computed from the wire: descriptors sent minus references the script gave back
+	expRefs := map[int]int{}
+	retRefs := map[int]map[int]int{} // answer id -> export id -> references its Return carried
+	finRel := map[int]bool{}         // answer ids finished with releaseResultCaps before their Return
+	finished := map[int]bool{}
+	stalls := strings.Contains(trace, "fH") || strings.Contains(trace, "lS") || strings.Contains(trace, "lQ")
+	// hostile and fault ops make the counts uncertain: the table comparison is only made on clean histories
+	dirty := strings.Contains(trace, "pH") || strings.Contains(trace, ";f") || strings.HasPrefix(trace, "f") ||
+		strings.Contains(trace, "pU") || strings.Contains(trace, "pJ") || strings.Contains(trace, "pD")
+	for _, step := range strings.Split(trace, ";") {
+		f := strings.SplitN(step, ":", 2)
+		if len(f) < 2 {
+			continue
+		}
+		i := strings.LastIndex(step, ":")
+		op, res, evs := f[0], "", step[i+1:]
+		rest := step[len(op)+1 : i]
+		if j := strings.LastIndex(rest, ":"); j >= 0 {
+			res = rest[j+1:]
+			op = op + ":" + rest[:j]
+		} else {
+			res = rest
+		}
+		if res == "blocked" {
+			note("!blocked:" + op)
+		}
+		pos++
+		// what the script sent
+		if strings.HasPrefix(op, "pB") || strings.HasPrefix(op, "pC") {
+			g := strings.Split(op[2:], ":")
+			if q, err := strconv.Atoi(g[0]); err == nil && !aborted {
+				outstandingAns[q]++
+				if _, ok := sentOrder["t"+g[0]]; !ok {
+					sentOrder["t"+g[0]] = pos
+				}
+			}
+			if len(g) > 3 {
+				for _, d := range strings.Split(g[3], "+") {
+					if len(d) > 1 && (d[0] == 's' || d[0] == 'm') {
+						n, _ := strconv.Atoi(d[1:])
+						impRefs[n]++
+					}
+				}
+			}
+		}
+		if strings.HasPrefix(op, "lZ") {
+			closedByScript = true
+		}
+		if (strings.HasPrefix(op, "pB") || strings.HasPrefix(op, "pC")) && !aborted {
+			g := strings.Split(op[2:], ":")
+			if q, err := strconv.Atoi(g[0]); err == nil {
+				delete(finRel, q)
+				delete(finished, q)
+				delete(retRefs, q)
+			}
+		}
+		if strings.HasPrefix(op, "pF") && !aborted {
+			g := strings.Split(op[2:], ":")
+			if q, err := strconv.Atoi(g[0]); err == nil && len(g) > 1 && !finished[q] {
+				finished[q] = true
+				if g[1] == "1" {
+					if rr, ok := retRefs[q]; ok {
+						for id, n := range rr {
+							expRefs[id] -= n
+						}
+					} else {
+						finRel[q] = true
+					}
+				}
+			}
+		}
+		if strings.HasPrefix(op, "pL") && !aborted {
+			g := strings.Split(op[2:], ":")
+			id, err1 := strconv.Atoi(g[0])
+			if len(g) > 1 && err1 == nil {
+				n, _ := strconv.Atoi(g[1])
+				if n <= expRefs[id] {
+					expRefs[id] -= n
+				}
+			}
+		}
+		if strings.HasPrefix(op, "pHcall") {
+			g := strings.Split(op, ":")
+			if len(g) > 1 {
+				if q, err := strconv.Atoi(g[1]); err == nil {
+					outstandingAns[q]++
+				}
+			}
+		}
+		if strings.HasPrefix(op, "pHcorrupt:") {
+			g := strings.SplitN(op, ":", 4)
+			if len(g) == 4 && (strings.HasPrefix(g[3], "pC") || strings.HasPrefix(g[3], "pB")) {
+				var q int
+				fmt.Sscanf(g[3][2:], "%d", &q)
+				outstandingAns[q]++
+			}
+			// descriptors of a corrupted message may or may not have been read: no count to compare with
+			if len(g) == 4 {
+				for _, d := range strings.FieldsFunc(g[3], func(c rune) bool { return c == '/' || c == '+' }) {
+					if len(d) > 1 && (d[0] == 's' || d[0] == 'm') {
+						if n, err := strconv.Atoi(d[1:]); err == nil {
+							uncertain[n] = true
+						}
+					}
+				}
+			}
+		}
+		if strings.HasPrefix(op, "pR") {
+			g := strings.Split(op[2:], ":")
+			qid, _ := strconv.Atoi(g[0])
+			if len(g) > 2 && !relQ[qid] {
+				for _, d := range strings.Split(g[2], "+") {
+					if len(d) > 1 && (d[0] == 's' || d[0] == 'm') {
+						n, _ := strconv.Atoi(d[1:])
+						impRefs[n]++
+					}
+				}
+			}
+		}
+		if strings.HasPrefix(op, "lC") || strings.HasPrefix(op, "lP") {
+			if strings.HasPrefix(res, "c") {
+				n, _ := strconv.Atoi(res[1:])
+				sentOrder["t"+strconv.Itoa(n+1000)] = pos
+			}
+		}
+		for _, ev := range strings.Fields(evs) {
+			switch {
+			case strings.HasPrefix(ev, "T["):
+				parts := strings.Split(strings.TrimSuffix(ev[2:], "]"), "|")
+				if len(parts) != 4 {
+					break
+				}
+				if parts[3] == "L1" && !stalls {
+					note("!sender-lock-held-at-quiescence")
+				}
+				if !aborted && !closedByScript {
+					for _, kv := range strings.Split(parts[1], ",") {
+						var id, n int
+						if _, err := fmt.Sscanf(kv, "i%d=%d", &id, &n); err == nil && !uncertain[id] && !dirty && n != impRefs[id] {
+							note(fmt.Sprintf("!import-%d-wirerefs-%d-want-%d", id, n, impRefs[id]))
+						}
+					}
+					if !dirty {
+						got := map[int]int{}
+						for _, kv := range strings.Split(parts[0], ",") {
+							var id, n int
+							if _, err := fmt.Sscanf(kv, "e%d=%d", &id, &n); err == nil {
+								got[id] = n
+							}
+						}
+						for id, n := range expRefs {
+							if n > 0 && got[id] != n {
+								note(fmt.Sprintf("!export-%d-wirerefs-%d-want-%d", id, got[id], n))
+							}
+						}
+						for id, n := range got {
+							if expRefs[id] != n {
+								note(fmt.Sprintf("!export-%d-wirerefs-%d-want-%d", id, n, expRefs[id]))
+							}
+						}
+					}
+				}
+			case strings.HasPrefix(ev, "!"):
+				note(ev)
+			case ev == ">Abort":
+				aborted = true
+			case strings.HasPrefix(ev, ">Ret(") || strings.HasPrefix(ev, ">Call("):
+				if i := strings.LastIndex(ev, ","); i >= 0 {
+					var a int
+					isRet := strings.HasPrefix(ev, ">Ret(")
+					if isRet {
+						fmt.Sscanf(ev, ">Ret(%d,", &a)
+					}
+					for _, d := range strings.Split(strings.TrimSuffix(ev[i+1:], ")"), "+") {
+						if len(d) > 1 && d[0] == 's' {
+							if id, err := strconv.Atoi(d[1:]); err == nil {
+								if isRet && finRel[a] {
+									continue // released as soon as it was sent
+								}
+								expRefs[id]++
+								if isRet {
+									if retRefs[a] == nil {
+										retRefs[a] = map[int]int{}
+									}
+									retRefs[a][id]++
+								}
+							}
+						}
+					}
+				}
+				if !strings.HasPrefix(ev, ">Ret(") {
+					var q int
+					fmt.Sscanf(ev, ">Call(%d,", &q)
+					relQ[q] = false
+					if inUseQ[q] {
+						note(fmt.Sprintf("!question-id-%d-reused-before-finish", q))
+					}
+					inUseQ[q] = true
+					break
+				}
+				var a int
+				fmt.Sscanf(ev, ">Ret(%d,", &a)
+				if outstandingAns[a] == 0 {
+					note(fmt.Sprintf("!return-without-call-%d", a))
+				} else {
+					outstandingAns[a]--
+				}
+			case strings.HasPrefix(ev, ">Boot("):
+				var q int
+				fmt.Sscanf(ev, ">Boot(%d)", &q)
+				relQ[q] = false
+				if inUseQ[q] {
+					note(fmt.Sprintf("!question-id-%d-reused-before-finish", q))
+				}
+				inUseQ[q] = true
+			case strings.HasPrefix(ev, ">Fin("):
+				var q int
+				fmt.Sscanf(ev, ">Fin(%d,", &q)
+				relQ[q] = strings.HasSuffix(ev, ",true)")
+				if !inUseQ[q] {
+					note(fmt.Sprintf("!finish-for-unused-question-%d", q))
+				}
+				delete(inUseQ, q)
+			case strings.HasPrefix(ev, ">Rel("):
+				var id, n int
+				fmt.Sscanf(ev, ">Rel(%d,%d)", &id, &n)
+				if n != impRefs[id] && !uncertain[id] {
+					note(fmt.Sprintf("!release-%d-count-%d-want-%d", id, n, impRefs[id]))
+				}
+				impRefs[id] = 0
+			case strings.HasPrefix(ev, "@"):
+				g := strings.Split(ev[1:], ".")
+				if len(g) == 3 {
+					if p, ok := sentOrder[g[2]]; ok {
+						if p < lastDeliv[g[0]] {
+							note("!delivery-out-of-order-" + g[0] + "-" + g[2])
+						}
+						lastDeliv[g[0]] = p
+					}
+				}
+			}
+		}
+	}
+	return bad
+}
+
+func execRPCCheck(boot bool, script string) string {
+	trace := execRPCScript(script, boot)
+	bad := rpcOracles(trace)
+	if len(bad) == 0 {
+		return "ok"
+	}
+	sort.Strings(bad)
+	return strings.Join(bad, " ")
+}
+
+// mixedScript: both directions, capabilities, pipelining, releases; hostile / fault ops according to the profile
+func mixedScript(r *lib.Rng, n int, hostile, faults bool) string {
+	var ops []string
+	nextQ, handles, lcalls, held := 0, 0, 0, 0
+	add := func(s string) { ops = append(ops, s) }
+	caps := func() string {
+		if r.Intn(3) > 0 {
+			return ""
+		}
+		return ":" + r.PickS("s1", "s1", "s2", "s1+s2", "s1+s1", "m3", "n", "rX0", "s2+rX0", "x1")
+	}
+	for i := 0; i < n; i++ {
+		switch t := r.Intn(40); {
+		case t < 3:
+			add("pB" + strconv.Itoa(nextQ))
+			nextQ++
+		case t < 10:
+			tgt := "eX" + strconv.Itoa(r.Intn(3))
+			if r.Intn(2) == 0 && nextQ > 0 {
+				tgt = "a" + strconv.Itoa(r.Intn(nextQ))
+				if r.Intn(3) > 0 {
+					tgt += "." + strconv.Itoa(r.Pick(0, 0, 0, 1, 300, 44))
+				}
+			}
+			m := r.Pick(0, 0, 1, 1, 2, 3, 4, 5, 6, 7, 8)
+			if m == 1 || m == 8 {
+				held++
+			}
+			add("pC" + strconv.Itoa(nextQ) + ":" + tgt + ":" + strconv.Itoa(m) + caps())
+			nextQ++
+		case t < 13:
+			if held > 0 {
+				add("aR" + strconv.Itoa(r.Intn(held)) + ":" + r.PickS("ok", "exc", "cap", "same", "big", "twice"))
+			}
+		case t < 17:
+			if nextQ > 0 {
+				add("pF" + strconv.Itoa(r.Intn(nextQ)) + ":" + strconv.Itoa(r.Intn(2)))
+			}
+		case t < 19:
+			add("pLX" + strconv.Itoa(r.Intn(3)) + ":" + strconv.Itoa(r.Pick(1, 1, 2)))
+		case t < 21:
+			add("lB")
+			handles++
+		case t < 24:
+			tgt := "Q" + strconv.Itoa(r.Intn(2))
+			if hostile && r.Intn(4) == 0 {
+				tgt = strconv.Itoa(r.Intn(4)) // maybe a question that does not exist, or was answered already
+			}
+			add("pR" + tgt + ":" + r.PickS("boot:s1", "boot:s1", "boot:s2", "ok", "ok:s1", "ok:s2", "ok:rX0", "exc", "boot:rX0"))
+		case t < 29:
+			if handles > 0 {
+				op := "lC" + strconv.Itoa(r.Intn(handles)) + ":" + strconv.Itoa(r.Pick(0, 0, 2, 3))
+				if r.Intn(4) == 0 {
+					op += ":" + r.PickS("k0", "k1", "h0", "h1")
+				}
+				add(op)
+				lcalls++
+			}
+		case t < 32:
+			if lcalls > 0 {
+				add("lP" + strconv.Itoa(r.Intn(lcalls)) + ":0:" + strconv.Itoa(r.Pick(0, 0, 2)))
+				lcalls++
+			}
+		case t < 34:
+			if lcalls > 0 {
+				add("lH" + strconv.Itoa(r.Intn(lcalls)) + ":0")
+				handles++
+			}
+		case t < 36:
+			if handles > 0 {
+				add("lR" + strconv.Itoa(r.Intn(handles)))
+			}
+		case t < 37:
+			if lcalls > 0 {
+				add("lX" + strconv.Itoa(r.Intn(lcalls)))
+			}
+		case t < 38:
+			add(r.PickS("pDs0:aQ0.0", "pDr0:e0", "pDs1:a0", "pU", "pJ"))
+		case t < 39:
+			if hostile {
+				add(r.PickS("pHwhich:1", "pHcalltgt:"+strconv.Itoa(nextQ), "pHcallnoparams:"+strconv.Itoa(nextQ), "pHcallyourself:"+strconv.Itoa(nextQ),
+					"pHcallop:"+strconv.Itoa(nextQ)+":0", "pHretwhich:Q0", "pHrettake:Q0:1", "pHdisprovide:1", "pHabort", "pHempty",
+					"pHcorrupt:"+strconv.Itoa(r.Intn(40))+":"+strconv.Itoa(r.Intn(20))+":pC"+strconv.Itoa(nextQ)+"/eX0/0/s1+s2",
+					"pHcorrupt:"+strconv.Itoa(r.Intn(40))+":"+strconv.Itoa(r.Intn(20))+":pRQ0/ok/s1",
+					"pHcorrupt:"+strconv.Itoa(r.Intn(30))+":"+strconv.Itoa(r.Intn(20))+":pC"+strconv.Itoa(nextQ)+"/a0.0/2",
+					"pHcorrupt:"+strconv.Itoa(r.Intn(20))+":"+strconv.Itoa(r.Intn(20))+":pDs0/a0.0"))
+				nextQ++
+			} else if faults {
+				add(r.PickS("fN1", "fN2", "fS1", "fS2", "fV", "fN1", "fS1"))
+			}
+		default:
+			if r.Intn(3) == 0 {
+				add("lZ")
+			} else if faults {
+				add(r.PickS("fN1", "fS1", "fN3", "fS3"))
+			}
+		}
+	}
+	if len(ops) == 0 {
+		ops = append(ops, "pB0")
+	}
+	return strings.Join(ops, ",")
+}
+
+// directed prefixes: situations the random part rarely builds on its own
+var rpcDirected = []string{
+	"pB0,pC1:e0:8,lZ",                                  // Close while a call is running that answers its cancellation with a new capability
+	"pB0,pC1:e0:7,pF1:1",                               // the same capability twice in one Return, then Finish releasing the result caps
+	"pB0,pC1:e0:1,pC2:a1.0:7,aR0:twice,pF1:1,pF2:1",    // … through a pipelined call
+	"pB0,pC1:e0:6,pC2:a1.300:2,pF1:1,pLX1:1",           // big result, pipelined through field 300
+	"pB0,pC1:e0:8,pC2:a1.0:0,pF1:0",                    // Finish cancels a call that answers with a capability; a call was pipelined on it
+	"lB,pRQ0:boot:s1,lC0:2,pRQ0:ok:s1,lH0:0,lR0,lR1",   // the same import received twice, both handles released
+	"lB,lC0:0,lX0,pRQ1:ok:s2,lB",                       // Return for a cancelled question, then id reuse
+	"pB0,pC1:e0:4,pC2:e0:4,pF1:1,pF2:1,pL0:1",          // several references on one export given back in steps
+}
+
+func genRPCCheck(rec *lib.Rec, r *lib.Rng, n int, hostile, faults bool) {
+	for i := 0; i < n; i++ {
+		s := mixedScript(r, 4+r.Intn(20), hostile, faults)
+		boot := r.Pick(1, 1, 0)
+		if i%4 == 0 {
+			d := rpcDirected[r.Intn(len(rpcDirected))]
+			boot = 1
+			if strings.HasPrefix(d, "lB") {
+				boot = r.Intn(2)
+			}
+			s = d + "," + s
+		}
+		rec.Op("S", "rpc check "+strconv.Itoa(boot)+" "+s, true)
+	}
+}
+
+func genC07(rec *lib.Rec, r *lib.Rng, thorough bool) {
+	n := 400
+	if thorough {
+		n = 12000
+	}
+	genRPCCheck(rec, r, n/Shards/2, false, false)
+	for i := 0; i < n/Shards/2; i++ {
+		rec.Op("M", "rpc script 1 "+inboundScript(r, 6+r.Intn(14)), true)
+	}
+}
+
+func genC08(rec *lib.Rec, r *lib.Rng, thorough bool) {
+	n := 400
+	if thorough {
+		n = 12000
+	}
+	genRPCCheck(rec, r, n/Shards, true, false)
+}
+
+func genC09(rec *lib.Rec, r *lib.Rng, thorough bool) {
+	n := 400
+	if thorough {
+		n = 12000
+	}
+	genRPCCheck(rec, r, n/Shards, false, true)
 }
